@@ -28,14 +28,17 @@ pub fn name(rng: &mut Rng, patch: bool) -> Vec<u8> {
         };
         n.push(c);
     }
-    if !patch && rng.chance(1, 8) {
-        n.extend_from_slice(rng.pick_str(&[".orig", ".rej", "~", ".tar.gz"]).as_bytes());
+    // every exception of the patch rule also occurs on patch-shaped names (the specification
+    // classifies; `patch` only chooses the shape)
+    if rng.chance(1, 8) {
+        n.extend_from_slice(rng.pick_str(&[".orig", ".rej", "~", ".tar.gz", ".tar.xz"]).as_bytes());
     }
     // no trailing '/', no "//", no "." / ".." components
     n
 }
 fn hash(rng: &mut Rng) -> String {
-    (0..rng.range(1, 64)).map(|_| *rng.pick(&['0', '1', 'a', 'f', '9', 'c'])).collect()
+    // recorded hashes are text: kept exactly as written (upper case, odd characters included)
+    (0..rng.range(1, 64)).map(|_| *rng.pick(&['0', '1', 'a', 'f', '9', 'c', 'A', 'F', 'E', 'x', '=', '(', ')'])).collect()
 }
 fn size(rng: &mut Rng) -> String {
     match rng.below(5) {
@@ -160,8 +163,9 @@ pub fn verify(rng: &mut Rng) -> Value {
         names.push(nm.clone());
         for _ in 0..rng.range(0, 3) {
             let flip = match rng.below(6) { 0 => 1, 1 => rng.range(2, 32), 2 => 40, _ => 0 };
+            let upper = if flip == 0 && rng.chance(1, 5) { rng.range(1, 32) } else { 0 };
             lines.push(json!({"kind": "sum", "alg": rng.range(1, 6), "name": bytes_json(&nm),
-                              "of": rng.pick_str(&["content", "content", "content", "other", "plain"]), "flip": flip}));
+                              "of": rng.pick_str(&["content", "content", "content", "other", "plain"]), "flip": flip, "upper": upper}));
         }
         if rng.chance(2, 3) {
             let n = match rng.below(4) { 0 => content.len() + 1, 1 => content.len().saturating_sub(1), _ => content.len() };
